@@ -29,7 +29,7 @@ class C15(BaseCheck):
           'transport sinks against a simulated broker that answers out of order, in half of the cases with '
           'deadlines that expire while requests are in transit and new calls issued before the late '
           'answers arrive, in a third of the cases with the calls issued while the broker connection is still '
-          'being established (correlation-id routing); in 30% of the cases also a complete Kafka client from the public builder (metadata bootstrap, router sink, per-topic balancer) whose Puts the broker answers with seeded error codes, including codes the library has no name for: each caller gets its own offset or a KafkaError with the broker\'s code. non-trivial = at least one request parsed and one response decoded; distinct by '
+          'being established (correlation-id routing), in 30% over a socket whose send() accepts 1-64 bytes at a time and in 25% with the transport over a plain ScalesSocket (its own read/write loops); in 30% of the cases also a complete Kafka client from the public builder (metadata bootstrap, router sink, per-topic balancer) whose Puts the broker answers with seeded error codes, including codes the library has no name for: each caller gets its own offset or a KafkaError with the broker\'s code. non-trivial = at least one request parsed and one response decoded; distinct by '
           '(payload classes, acks set, response shapes)')
   ANCHORS = ('scales.kafka.protocol:KafkaProtocol._SerializeProduceRequest',
              'scales.kafka.sink:KafkaTransportSink._BuildHeader',
@@ -39,7 +39,7 @@ class C15(BaseCheck):
   REQUIRED_ANCHORS = ANCHORS
   REQUIRED_CLASSES = ('payloads:none', 'payload:empty', 'payload:large', 'acks:-1', 'acks:0', 'acks:1',
                       'resp:produce', 'resp:metadata', 'routing', 'routing:timeouts', 'routing:timed-out-in-transit',
-                      'routing:while-opening', 'full-client', 'full-client:unlisted-error-code', 'custom-client-id')
+                      'routing:while-opening', 'routing:short-sends', 'routing:bare-socket', 'full-client', 'full-client:unlisted-error-code', 'custom-client-id')
   ASSUMPTIONS = ('topics and payloads are bytes (the only form the Python-3 code path and the '
                  'repository\'s own test use)',)
   QUICK_CASES = 640
